@@ -311,7 +311,14 @@ func drawTask(r *rng.R, models []drawnModel, n int, allowLoad bool) Task {
 		case k < 48 && len(prev) > 0:
 			// buffer re-use: the caller overwrites the tensors of an earlier call and passes them again
 			ref := prev[r.Intn(len(prev))]
-			t.Calls = append(t.Calls, Call{Kind: KRefill, Model: mi, Ref: ref, Inputs: refillOf(r, t.Calls, ref, set)})
+			rc := Call{Kind: KRefill, Model: mi, Ref: ref, Inputs: refillOf(r, t.Calls, ref, set)}
+			switch r.Intn(6) {
+			case 0:
+				rc.Rearrange = "swapped" // the same objects, each under another input's name
+			case 1:
+				rc.Rearrange = "reshaped" // the caller reshaped its tensors in place
+			}
+			t.Calls = append(t.Calls, rc)
 		case k < 60 && len(prev) > 0:
 			// (a third of these callers do not pick the outputs apart: they merge the whole result map of the earlier call
 			// into the next call's input map, so tensors also arrive under the names of the model's OUTPUTS)
